@@ -7,10 +7,11 @@ EXTENDS Conn, TLC
 CONSTANT MaxLen
 
 Next == \/ ReadOk \/ ReadErr
-        \/ \E o \in 1..MaxLen, a \in 0..MaxLen : Write(o, a)
-        \/ \E o \in 1..MaxLen : WriteErr(o)
+        \/ \E o \in 1..MaxLen, a \in 0..MaxLen, c \in BOOLEAN : Write(o, a, c)
+        \/ \E o \in 1..MaxLen, c \in BOOLEAN : WriteErr(o, c)
         \/ FlushOk \/ FlushErr
         \/ \E r \in {"ok", "err"}, e \in BOOLEAN : Return(r, e)
 Spec == CInit /\ [][Next]_cvars
-OkMeansDelivered == (phase = "returned" /\ result = "ok") => (total > 0 /\ remaining = 0 /\ ~fault)
+OkMeansDelivered == (phase = "returned" /\ result = "ok") => (sent > 0 /\ pending = 0 /\ ~fault)
+Bounded == sent <= 3 * MaxLen
 =============================================================================
